@@ -163,7 +163,46 @@ def run(rep, tier, rng):
                             sample={"alg": al, "d": d, "options": on, "wrapper": wrapper, "left": pa[0], "right": pb[0], "output": np.round(o[1][k], 6).tolist()}
                             if d == 4 and kind == "probe" and on == "UnbindLeft" and wrapper == "network" else None)
 
+    # ---------------- the HRR network has the shape the theorem is about ------------------------------------------------
+    # Theory/HrrNet.v proves, for every d, that half-spectrum products of Re / Im parts recombined with weights 1 (k = 0,
+    # 2k = d) and 2 compute circular convolution.  Here: the three matrices of the implementation are exactly those tables
+    # (w = exp(-2 pi i / d)), row by row.
+    from nengo_spa.networks import circularconvolution as cc
+    struct_bad = []
+    for d in (range(1, 33) if quick else range(1, 129)):
+        K = d // 2 + 1
+        ang = -2.0 * np.pi * np.outer(np.arange(K), np.arange(d)) / d
+        tre, tim = np.cos(ang), np.sin(ang)              # Re / Im of w^(k j)
+        wt = np.array([1.0 if (k == 0 or 2 * k == d) else 2.0 for k in range(K)])
+        for inv in (False, True):
+            sgn = -1.0 if inv else 1.0
+            exp_a = np.zeros((4 * K, d)); exp_b = np.zeros((4 * K, d))
+            for k in range(K):
+                exp_a[4 * k + 0], exp_a[4 * k + 1], exp_a[4 * k + 2], exp_a[4 * k + 3] = tre[k], sgn * tim[k], tre[k], sgn * tim[k]
+                exp_b[4 * k + 0], exp_b[4 * k + 1], exp_b[4 * k + 2], exp_b[4 * k + 3] = tre[k], sgn * tim[k], sgn * tim[k], tre[k]
+            oa = c.outcome(lambda: cc.transform_in(d, "A", inv))
+            ob = c.outcome(lambda: cc.transform_in(d, "B", inv))
+            rep.case(("cconv-tables", d, inv))
+            rep.count("hrr-network-tables")
+            for nm, o, ex in (("transform_in A", oa, exp_a), ("transform_in B", ob, exp_b)):
+                if o[0] != "ok" or np.shape(o[1]) != ex.shape or not np.allclose(o[1], ex, atol=1e-12):
+                    struct_bad.append(f"{nm} (d={d}, invert={inv})")
+        exp_out = np.zeros((4 * K, d))
+        for k in range(K):
+            # idft[k] = conj(w^(k m)) / d : Re = tre, Im = -tim
+            exp_out[4 * k + 0], exp_out[4 * k + 1] = wt[k] * tre[k] / d, -wt[k] * tre[k] / d
+            exp_out[4 * k + 2], exp_out[4 * k + 3] = wt[k] * tim[k] / d, wt[k] * tim[k] / d
+        oo = c.outcome(lambda: cc.transform_out(d))
+        if oo[0] != "ok" or np.shape(oo[1]) != (d, 4 * K) or not np.allclose(np.asarray(oo[1]).T, exp_out, atol=1e-12):
+            struct_bad.append(f"transform_out (d={d})")
+
     verdicts = c.coq_eval("C05", "cases", IMPORTS, exprs, shard=250)
+    hrr_behaviour_failed = any((not ok) and m.get("alg") == "AHrr" for ok, m in zip(verdicts, meta))
+    for what in struct_bad[:3]:
+        rep.violation(f"CircularConvolution {what} is not the table of the proved network shape (correspondence with Theory/HrrNet.v cconv_net)",
+                      {"case": {"matrix": what}, "correspondence": "harness.props.c05 HRR network tables", "theorem": "C05_hrr_network_computes_circular_convolution",
+                       "python": "# compare nengo_spa.networks.circularconvolution.transform_in / transform_out with the cos / sin tables\n"
+                                 "assert False, 'network tables differ from the proved shape'\n"}, found_input=hrr_behaviour_failed)
     for ok, m in zip(verdicts, meta):
         if ok:
             continue
